@@ -44,7 +44,7 @@ def select(x, key):  # key: tuple of int | None(=full slice)
 def fold(x, w):
     """weighted fold of a nested list / scalar into a scalar linear form (position-sensitive)"""
     if not isinstance(x, list):
-        return x
+        return -7 if x is None else x
     tot = 0
     n = 0
     stack = [x]
@@ -59,7 +59,7 @@ def fold(x, w):
 
     rec(x)
     for n, y in enumerate(flat):
-        tot = tot + ((n + 1) * w + 1) * y
+        tot = tot + ((n + 1) * w + 1) * (-7 if y is None else y)
     return tot + 1000003 * len(flat)
 
 
@@ -75,10 +75,11 @@ def tolist(x):
 
 
 class FSpec:
-    def __init__(self, name, params, outputs, mapspec=None, internal=None, defaults=None, bound=None):
+    def __init__(self, name, params, outputs, mapspec=None, internal=None, defaults=None, bound=None, none_when_zero=False):
         self.name, self.params, self.outputs = name, list(params), list(outputs)
         self.mapspec, self.internal = mapspec, internal
         self.defaults, self.bound = dict(defaults or {}), dict(bound or {})
+        self.none_when_zero = none_when_zero  # the function returns None when its first argument is 0 (None is a value like any other)
 
 
 def form(fi, oi, args):
@@ -90,6 +91,8 @@ def form(fi, oi, args):
 
 
 def _outputs_of(fi, fs, args):
+    if fs.none_when_zero and not isinstance(args[0], list) and args[0] == 0:
+        return [None for _ in fs.outputs]
     outs = []
     for oi in range(len(fs.outputs)):
         base = form(fi, oi, args)
@@ -221,7 +224,11 @@ def same_value(got, exp) -> bool:
             g = got[idx] if isinstance(got, np.ndarray) else get(got, idx)
             if g is np.ma.masked:
                 return False
-            if not (g == get(exp, idx)):
+            e = get(exp, idx)
+            if e is None or g is None:
+                if not (e is None and g is None):
+                    return False
+            elif not (g == e):
                 return False
         return True
     if got is np.ma.masked:
@@ -288,6 +295,8 @@ def _t(tid, funcs, inputs, axes=1, doc=""):
 
 
 _t("T1", [FSpec("f", ["x"], ["y"], "x[i] -> y[i]")], lambda n, v: {"x": _lst(v, 0, n[0])}, 1, "element-wise map")
+_t("TN", [FSpec("f", ["x"], ["y"], "x[i] -> y[i]", none_when_zero=True), FSpec("g", ["y"], ["z"], "y[i] -> z[i]", none_when_zero=True)],
+   lambda n, v: {"x": _lst(v, 0, n[0])}, 1, "functions that return None for some elements (None is a value)")
 _t("T2", [FSpec("f", ["a", "b"], ["y"], "a[i], b[i] -> y[i]")], lambda n, v: {"a": _lst(v, 0, n[0]), "b": _lst(v, 3, n[0])}, 1, "zip")
 _t("T3", [FSpec("f", ["a", "b"], ["y"], "a[i], b[j] -> y[i, j]")], lambda n, v: {"a": _lst(v, 0, n[0]), "b": _lst(v, 3, n[1])}, 2, "outer product")
 _t(
@@ -426,6 +435,14 @@ _t(
     lambda n, v: {"a": _lst(v, 0, n[0]), "c": v[6]},
     1,
     "three functions in one generation feeding a reduction (schedules)",
+)
+
+_t(
+    "T18",
+    [FSpec("f", ["a"], ["y"], "a[i] -> y[i]"), FSpec("g", ["y", "w"], ["z"], "w[k] -> z[k]")],
+    lambda n, v: {"a": _lst(v, 0, n[0]), "w": _lst(v, 3, n[1])},
+    2,
+    "a mapped consumer that takes the mapped array y whole (unlisted) while mapping over another axis",
 )
 
 QUICK_SIZES = 2
